@@ -53,7 +53,7 @@ func c03Engine() *liquid.Engine {
 	e := newEngine(nil)
 	for name, src := range map[string]string{"c03-p1.html": "[A {{ n }}{% assign inc_a = 1 %}]", "c03-p2.html": "[B {{ s }}{% for q in a %}{% cycle 'x', 'y' %}{% endfor %}]",
 		// a partial in a sub-directory, and one that includes further
-		"c03-p5.html": "[E {{ 10 | divided_by: n }}]", // fails in the environments where n is 0
+		"c03-p5.html":    "[E {{ 10 | divided_by: n }}]", // fails in the environments where n is 0
 		"c03sub/p3.html": "[C {{ n }}]", "c03sub/p4.html": "[D {% include \"c03-p1.html\" %}]"} {
 		if _, err := e.ParseTemplateAndCache([]byte(src), name, 1); err != nil {
 			panic(err)
